@@ -17,7 +17,8 @@ MANIFEST = dict(
          'whatever its length); after a successful build the body\'s script data hash is '
          'H(bytes of witness entry 5 (empty map when absent) ++ bytes of witness entry 4 (nothing when absent) ++ enc(language '
          'views of the Plutus versions used)), absent exactly when there are neither redeemers nor datums — for map and list '
-         'redeemers and after execution units were replaced. Oracle: the preimage is rebuilt in Coq from byte slices of '
+         'redeemers and after execution units were replaced; a Plutus version that merely sits on a collateral or read-only '
+         'reference UTxO contributes no language view (C12_inert_calls). Oracle: the preimage is rebuilt in Coq from byte slices of '
          'tx.to_cbor() and the specification\'s language views, hashed via a BLAKE2b table and compared with body field 11.',
     note='Trusted: Coq kernel+vm_compute; hand models Redeemers.v/ScriptHash.v validated by differential runs; generator; '
          'driver; hashlib.blake2b as H (lookup table, a missing entry fails loudly). Premise sound12: redeemers go with Plutus '
